@@ -616,7 +616,7 @@ class EncodeCatRows(Filter[Iterable[Union[Any,Dense,Sparse]], Iterable[Union[Any
                         else:
                             h = o.pop(_k).as_onehot
                             for i,v in enumerate(h):
-                                if i != 0: o[f'{_k}_{v}'] = i
+                                if v != 0: o[f'{_k}_{i}'] = v
                 else:
                     for _k in k:
                         o[_k] =  o[_k].as_onehot
